@@ -515,7 +515,8 @@ def f_createVinList : Stmt :=
           ifR (.or (nz "cvi.err") (isz "txReply")) .skip ;;
           .site "index" "txReply[len(txReply)-1]" (some (.ge "txReply" 1)) ;;
           Dt "txReply[len(txReply)-1] .Tx" "last" ;;
-          .set "prevTx" (.v "last.Tx"))
+          -- every reply of FetchTxBySha carries its transaction
+          .call "txReply[len(txReply)-1].Tx" ["prevTx", "prevTx.TxOut"] (always [.nz "prevTx"]))
         (D "tx" "MsgTx" ;; .call "tx.MsgTx()" ["prevTx", "prevTx.TxOut"] (always [.nz "prevTx"])) ;;
         MA "cache[txIn.PreviousOutPoint.Hash]" "cache") .skip ;;
       D "prevTx" "TxOut" ;;
@@ -619,10 +620,11 @@ def f_CreateRawTransaction_api : Stmt :=
   ifR (nz "cl.err") (.set "out" (.v "cl.err")) ;;
   .invoke "api/util.go:checkNotEmpty" ;;            -- in.Inputs
   ifR (nz "cne.err") (.set "out" (.v "cne.err")) ;;
+  -- isEmpty(in.Inputs) was false: at least one input
+  .call "len(in.Inputs)" ["inputs"] [⟨[.z "empty"], [.ge "inputs" 1]⟩] ;;
   .invoke "api/util.go:checkNotEmpty" ;;            -- in.Amounts
   ifR (nz "cne.err") (.set "out" (.v "cne.err")) ;;
-  .call "len(in.Inputs)" ["in.Inputs"] [] ;;
-  .loop "cr.i" "in.Inputs" [] (
+  .loop "cr.i" "inputs" [.ge "inputs" 1] (
     .invoke "api/util.go:checkTransactionIdLen" ;;
     ifR (nz "ctl.err") (.set "out" (.v "ctl.err"))) ;;
   .set "amounts" (.k 1) ;;
@@ -766,9 +768,9 @@ def f_GetTransactionFee : Stmt :=
   ifR (nz "cne.err") (.set "out" (.v "cne.err")) ;;
   .invoke "masswallet/wallet.go:WalletManager.CurrentWallet" ;;
   ifR (isz "cw.len") (.set "err" (.k E.noWalletInUse) ;; failCvt' "err") ;;
-  .call "len(in.Inputs)" ["in.Inputs"] [] ;;
+  .call "len(in.Inputs)" ["inputs"] [] ;;
   .call "len(in.Amounts)" ["in.Amounts"] [] ;;
-  .ite (isz "in.Inputs") (
+  .ite (isz "inputs") (
     flag "in.HasBinding" "gtf.b" ;;
     .ite (nz "gtf.b") (
       .invoke "api/tx_service.go:mockBindingTarget" ;;
@@ -792,10 +794,9 @@ def f_GetTransactionFee : Stmt :=
       .invoke "masswallet/tx.go:WalletManager.EstimateStakingTxFee" ;;
       ifR (nz "err") (failCvt "err" ApiErr.abnormalData)))
   (
-    .loop "gtf.k" "in.Inputs" [] (
+    .loop "gtf.k" "inputs" [] (
       .invoke "api/util.go:checkTransactionIdLen" ;;
       ifR (nz "ctl.err") (.set "out" (.v "ctl.err"))) ;;
-    .set "inputs" (.v "in.Inputs") ;;
     .invoke "masswallet/tx.go:WalletManager.EstimateManualTxFee" ;;
     ifR (nz "err") (failCvt "err" ApiErr.abnormalData)) ;;
   .invoke "api/util.go:AmountToString" ;;
@@ -1075,7 +1076,8 @@ def importBody (keystoreCall : String) : Stmt :=
       .call "range addrs" ["managedAddr"] (always [.nz "managedAddr"]) ;;
       D "managedAddr" "String" ;;
       .call "w.utxoStore.PutNewAddress" ["err"] [] ;;
-      ifR (nz "err") .skip)) ;;
+      ifR (nz "err") .skip) ;;
+    .set "err" (.k 0)) ;;
   .ite (nz "err") (
     .ite (nz "am") (D "am" "Name") .skip ;;
     .ret) .skip ;;
@@ -1283,7 +1285,7 @@ def f_CreateRawTransaction : Stmt :=
   .invoke "masswallet/wallet.go:WalletManager.MarkUsedUTXO" ;;
   .set "err" (.k 0)
 
-def autoTail (estimate : String) (tx : Var) : Stmt :=
+def autoTail (estimate : String) (tx : String) : Stmt :=
   .invoke estimate ;;
   ifR (nz "err") .skip ;;
   D tx "LockTime" ;;
@@ -1579,8 +1581,7 @@ def f_estimateSignedSize : Stmt :=
     .call "utx.OutPoint.Index" ["vout"] [] ;;
     .invoke "masswallet/common.go:WalletManager.existsMsgTx" ;;
     ifR (nz "perr") (.set "err" (.v "perr")) ;;
-    .set "mtx" (.v "prevTx") ;;
-    Dt "mtx .TxOut" "prevTx" ;;
+    Dt "mtx .TxOut" "prevTx" ;;          -- Go's local `mtx` is the transaction returned by existsMsgTx
     IX "mtx.TxOut[txidx]" "vout" "prevTx.TxOut" ;;
     .call "mtx.TxOut[i]" ["mtx.TxOut[txidx]"] (always [.nz "mtx.TxOut[txidx]"]) ;;
     Dt "mtx.TxOut[txidx] .PkScript" "mtx.TxOut[txidx]" ;;
@@ -1861,6 +1862,7 @@ def f_GetTxHistory : Stmt :=
   .set "err" (.k 0)
 
 def f_selectRelatedTx : Stmt :=
+  .set "res" (.k 1) ;;
   .set "result.Data" (.k 1) ;;
   .call "len(h.SortedHeights)" ["h.SortedHeights"] [] ;;
   -- `for i := len-1; i >= 0; i--`: i runs over the valid indexes downwards
@@ -1881,8 +1883,7 @@ def f_selectRelatedTx : Stmt :=
       .call "rest = num - count" ["rest"] (always [.le "rest" "hd"]) ;;
       SL "h.Data[height][len(h.Data[height])-rest:]" (some (.le "rest" "hd")) ;;
       MA "result.Data[height]" "result.Data" ;;
-      .ret)) ;;
-  .set "res" (.k 1)
+      .ret))
 
 -- ==================================================================== masswallet/ntfnshandler.go
 
@@ -2525,5 +2526,36 @@ def prog : Prog := fun f => (progs.find? (fun p => p.1 == f)).map (·.2)
 
 /-- the site table of the model -/
 def siteTable : List (String × List (String × String)) := progs.map (fun p => (p.1, sites p.2))
+
+/-- entry points: the gRPC handlers of the anchored files and the follower / worker / start-up paths -/
+def roots : List String := [
+  "api/wallet_service.go:APIServer.GetClientStatus", "api/wallet_service.go:APIServer.QuitClient",
+  "api/wallet_service.go:APIServer.SignRawTransaction", "api/wallet_service.go:APIServer.CreateAddress",
+  "api/wallet_service.go:APIServer.GetAddresses", "api/wallet_service.go:APIServer.ValidateAddress",
+  "api/wallet_service.go:APIServer.GetWalletBalance", "api/wallet_service.go:APIServer.GetAddressBalance",
+  "api/wallet_service.go:APIServer.UseWallet", "api/wallet_service.go:APIServer.Wallets",
+  "api/wallet_service.go:APIServer.GetUtxo", "api/wallet_service.go:APIServer.ImportWallet",
+  "api/wallet_service.go:APIServer.ImportMnemonic", "api/wallet_service.go:APIServer.CreateWallet",
+  "api/wallet_service.go:APIServer.ExportWallet", "api/wallet_service.go:APIServer.RemoveWallet",
+  "api/wallet_service.go:APIServer.GetWalletMnemonic",
+  "api/tx_service.go:APIServer.GetTxStatus", "api/tx_service.go:APIServer.GetRawTransaction",
+  "api/tx_service.go:APIServer.DecodeRawTransaction", "api/tx_service.go:APIServer.CreateRawTransaction",
+  "api/tx_service.go:APIServer.CreateStakingTransaction", "api/tx_service.go:APIServer.CreateBindingTransaction",
+  "api/tx_service.go:APIServer.CreatePoolPkCoinbaseTransaction", "api/tx_service.go:APIServer.AutoCreateTransaction",
+  "api/tx_service.go:APIServer.GetTransactionFee", "api/tx_service.go:APIServer.TxHistory",
+  "api/tx_service.go:APIServer.GetStakingHistory", "api/tx_service.go:APIServer.GetBindingHistory",
+  "api/tx_service.go:APIServer.SendRawTransaction", "api/tx_service.go:APIServer.GetNetworkBinding",
+  "api/tx_service.go:APIServer.CheckPoolPkCoinbase", "api/tx_service.go:APIServer.CheckTargetBinding",
+  "masswallet/ntfnshandler.go:handle", "masswallet/ntfnshandler.go:worker",
+  "masswallet/ntfnshandler.go:NtfnsHandler.processConnectedBlock", "masswallet/ntfnshandler.go:NtfnsHandler.proccessReceivedTx",
+  "masswallet/ntfnshandler.go:NtfnsHandler.asyncImport", "masswallet/ntfnshandler.go:NtfnsHandler.asyncRemove",
+  "masswallet/ntfnshandler.go:NewNtfnsHandler", "masswallet/wallet.go:WalletManager.Start", "masswallet/wallet.go:WalletManager.Stop",
+  "masswallet/wallet.go:WalletManager.GetAllAddressesWithPubkey"]
+
+def handlerRoots : List String := roots.filter (fun r => r.startsWith "api/")
+def followerRoots : List String := roots.filter (fun r => !r.startsWith "api/")
+
+/-- fuel of the checker (depth of the deepest statement/call nesting, with slack) -/
+def checkFuel : Nat := 400
 
 end MW.Model.Api
